@@ -486,7 +486,11 @@ impl<'a> JobCtx<'a> {
         for o in &other {
             *st.other_rule_hits.entry(o.rule.to_string()).or_insert(0) += 1;
         }
-        if self.det_check {
+        // every 50th job is run twice and the traces compared; in jobs that enumerate many runs
+        // (C19's conversations, the sweeps of C15 and C20) every 50th run of every job instead, so
+        // that the number of re-checked runs does not depend on which conversations a seed draws
+        let det = if self.sub == 0 { self.det_check } else { (self.job + self.sub as u64) % 50 == 7 };
+        if det {
             let h1 = trace_hash(&out);
             let out2 = sim::simulate(plan);
             st.determinism_checked += 1;
